@@ -38,6 +38,19 @@ def check(seed):
         return tuple(rnd.uniform(-50, 50) for _ in range(3))
     ab = HomogeneousMatrix(t(), rq(rnd), src="base_link", dst=FrameID.MAP)
     bc = HomogeneousMatrix(np.array(t()), rq(rnd).rotation_matrix if rnd.random() < 0.5 else rq(rnd), src=FrameID.MAP, dst="lidar_top")
+    # special operands: the identity between two different frames (a sensor mounted at the origin), a pure translation, a pure rotation
+    k = rnd.random()
+    ident = lambda src, dst: HomogeneousMatrix((0, 0, 0) if rnd.random() < 0.5 else (0.0, 0.0, 0.0), Quaternion() if rnd.random() < 0.5 else np.eye(3), src=src, dst=dst)
+    if k < 0.12:
+        ab = ident("base_link", FrameID.MAP)
+    elif k < 0.24:
+        bc = ident(FrameID.MAP, "lidar_top")
+    elif k < 0.30:
+        ab, bc = ident("base_link", FrameID.MAP), ident(FrameID.MAP, "lidar_top")
+    elif k < 0.36:
+        ab = HomogeneousMatrix(t(), Quaternion(), src="base_link", dst=FrameID.MAP)
+    elif k < 0.42:
+        bc = HomogeneousMatrix((0.0, 0.0, 0.0), rq(rnd), src=FrameID.MAP, dst="lidar_top")
     p, q = t(), rq(rnd)
     # inverse round trip
     p1, q1 = ab.transform(p, q)
